@@ -200,3 +200,9 @@ def check(ctx):
             ctx.holds('R3.no_unsafe_math', 'meson.build', 'no -ffast-math / -Ofast / -fassociative-math / '
                       '-funsafe-math-optimizations in the build description')
     ctx.guard('R3', 'meson.build', r3)
+    # the compensated sums must reach the reported result unchanged: result() reports the cell
+    # scaled by the bin size and nothing else (shared with C02 / C11)
+    from .common import share
+    share(ctx, 'C02', 'R4/C02.', ['R5.'])
+    share(ctx, 'C11', 'R4/C11.', ['R4.bin_sum'])
+
